@@ -10,6 +10,7 @@ use std::{
 
 use serde_json::{json, Value};
 
+mod c05core;
 mod c05text;
 mod c08;
 
